@@ -1045,9 +1045,33 @@ def run(ctx):
   # ---- direct oracle on every case ---------------------------------------------------------------------------
   oracle_evals = 0
   probe_evals = 0
+  def shrink_threads(case, sig):
+    """greedy: drop schedule entries, then shrink each thread's program, while the same signature is still hit"""
+    ps, sched = [p for p in case['progs']], list(case['sched'])
+    def fails(ps_, sc_):
+      return sig in [s_ for s_, _ in oracle_threads(real, ps_, sc_, impl_threads(real, ps_, sc_))]
+    budget = [60]
+    i = 0
+    while i < len(sched) and budget[0] > 0:
+      budget[0] -= 1
+      cand = sched[:i] + sched[i + 1:]
+      if fails(ps, cand):
+        sched = cand
+      else:
+        i += 1
+    for t in range(len(ps)):
+      def f(q, t=t):
+        if budget[0] <= 0:
+          return False
+        budget[0] -= 1
+        return fails(ps[:t] + [q] + ps[t + 1:], sched)
+      ps[t] = shrink(ps[t], f)
+    return dict(kind='threads', progs=ps, sched=sched)
   def report(hits, case, fails=None):
     for sig, what in hits:
       c = case
+      if case.get('kind') == 'threads' and not any(h['signature'] == sig for h in ctx.hits) and not any(f_['signature'] == sig for f_ in ctx.open_findings()):
+        c = shrink_threads(case, sig)
       if fails is not None and case.get('kind') == 'single':
         small = shrink(case['prog'], lambda q: sig in [s for s, _ in oracle_single(real, q)])
         c = dict(kind='single', prog=small)
